@@ -17,6 +17,7 @@ RULE = (
     "-int_{x0}^{x} sing (own quadrature, rtol 1e-4 on int|sing|). Distinct = (family, module, class, order, nf); "
     "non-trivial = the RSL has a singular or local part (identity checked) or a regular part (finiteness checked on >= 10 points)."
     " Every mass ratio is driven in two representations (Q2 varied at unit mass; the mass varied at a common Q2), so that state keyed by Q2 or by the mass alone shows."
+    " Each part is also asked three times at its first sample points after the whole sample was evaluated: the answers must be identical (a part is a function of z)."
 )
 ASSUMPTIONS = ["scipy.quad trusted", "Vogt-type parametrisations are accurate to ~1e-6 relative: rtol 1e-4 (calibrated: noise <= 2.1e-6, defects >= 5e-2)",
                "threshold-limited heavy kernels are evaluated on all of (0,1) (they return 0 beyond the partonic threshold)"]  # fmt: skip
@@ -137,6 +138,19 @@ def check_rsl(rsl, label, viol, counters, ratio=None):
             if not scalar_ok(v):
                 bad.append(x)
                 first = first or f"= {v!r}"
+        # a part of a kernel is a function of z: asked again at the first sample points (after the whole sample has been evaluated) it
+        # must give the very same numbers - a closure that edits captured state on every call does not
+        if not bad and not rejected:
+            try:
+                again = [(float(x), f(float(x), a[part]), f(float(x), a[part])) for x in xs[:3]]
+                first_pass = [f(float(x), a[part]) for x in xs[:3]]
+            except Exception:  # noqa: BLE001
+                again, first_pass = [], []
+            counters["determinism_evals"] = counters.get("determinism_evals", 0) + 2 * len(again)
+            for (x_, v1, v2), v0 in zip(again, first_pass):
+                if scalar_ok(v1) and scalar_ok(v2) and scalar_ok(v0) and not (float(v1) == float(v2) == float(v0)):
+                    viol.append(dict(sig=f"not-a-function|{label}|{part}", what=f"{label}: {part}({x_:.6g}) returned {float(v1)!r}, {float(v2)!r} and {float(v0)!r} on consecutive calls with the same arguments (Q2/m2={ratio}): the part is not a function of z"))
+                    break
         if bad:
             kind_ = "nonfinite" if "raised" not in (first or "") else "part-raises"
             viol.append(dict(sig=f"{kind_}|{label}|{part}|{region(max(bad), ratio)}", what=f"{label}: {part}(z) {first} at z={bad[0]:.6g}; {len(bad)} of {len(xs)} sample points fail, largest failing z={max(bad):.6g} (Q2/m2={ratio}, args {a[part].tolist()})"))
